@@ -221,6 +221,26 @@ impl VisitorMut for MA {
     }
     id_hooks_mut!();
 }
+/// a visitor that rewrites: the first block / loop / if it is shown is replaced by `unreachable`
+/// (the sequences below it are detached); the traversal must walk the tree the visitor leaves
+/// behind, i.e. not enter what was detached and report everything else exactly once
+pub struct MS(pub Rec, pub bool);
+impl VisitorMut for MS {
+    fn start_instr_seq_mut(&mut self, s: &mut InstrSeq) {
+        self.0.ev(Evt::Start(s.id().index()));
+    }
+    fn end_instr_seq_mut(&mut self, s: &mut InstrSeq) {
+        self.0.ev(Evt::End(s.id().index()));
+    }
+    fn visit_instr_mut(&mut self, i: &mut Instr, _: &mut InstrLocId) {
+        self.0.ev(Evt::Instr(i as *const Instr as usize));
+        if !self.1 && matches!(i, Instr::Block(_) | Instr::Loop(_) | Instr::IfElse(_)) {
+            *i = Instr::Unreachable(Unreachable {});
+            self.1 = true;
+        }
+    }
+    id_hooks_mut!();
+}
 pub struct MB2(pub Rec);
 impl VisitorMut for MB2 {
     fn start_instr_seq_mut(&mut self, s: &mut InstrSeq) {
@@ -509,6 +529,15 @@ pub fn check_function(m: &mut Module, fid: FunctionId) -> Vec<(String, String)> 
     }
     if let Some(x) = judge_mutable("overridden-hooks", &r2, &flog) {
         out.push(x);
+    }
+    // last, because it changes the function: the rewriting visitor
+    let mut v = MS(Rec::new(true), false);
+    dfs_pre_order_mut(&mut v, fm, start);
+    if v.1 {
+        let after = reference_walk(fm, start);
+        if let Some(x) = judge_mutable("rewriting-visitor", &after, &v.0.log) {
+            out.push(x);
+        }
     }
     out
 }
